@@ -49,7 +49,9 @@ def main():
                      "distinct = distinct (layer class, geometry, quantizers)")
   n = 60 if rep.tier == "quick" else 1200
   n_eq = 0
-  kinds = ["dense", "conv1d", "conv2d", "depthwise", "sep2d", "sep1d", "avgpool", "gap", "dense_noq", "conv2d_noq"]
+  kinds = ["dense", "conv1d", "conv2d", "depthwise", "sep2d", "sep1d", "avgpool", "gap", "dense_noq", "conv2d_noq",
+           "conv2dtranspose", "conv2d_mask", "sep2d_noq", "sep1d_noq", "conv2dtranspose_noq"]
+  mask = None
   for i in range(n):
     kind = kinds[i % len(kinds)]
     kq, bq, aq = pick(rng, QS), pick(rng, QS), pick(rng, AQ)
@@ -87,6 +89,23 @@ def main():
         ref = L.Conv2D(f, (kh, kw), strides=s, padding=pad, dilation_rate=d, groups=groups, use_bias=use_bias)
         x = rng.normal(0, 1, size=(2, 9, 8, ci)).astype(np.float32)
         wq = ["kernel_quantizer_internal", "bias_quantizer_internal"]
+      elif kind in ("conv2dtranspose", "conv2dtranspose_noq"):
+        f, kh, kw, s = int(rng.integers(1, 5)), int(rng.integers(1, 4)), int(rng.integers(1, 4)), int(rng.integers(1, 4))
+        pad = pick(rng, ["valid", "same"])
+        desc.update(filters=f, kh=kh, kw=kw, s=s, pad=pad)
+        ql = qkeras.QConv2DTranspose(f, (kh, kw), strides=s, padding=pad, use_bias=use_bias, kernel_quantizer=kq, bias_quantizer=bq, activation=aq)
+        ref = L.Conv2DTranspose(f, (kh, kw), strides=s, padding=pad, use_bias=use_bias)
+        x = rng.normal(0, 1, size=(2, 5, 6, int(rng.integers(1, 4)))).astype(np.float32)
+        wq = ["kernel_quantizer_internal", "bias_quantizer_internal"]
+      elif kind == "conv2d_mask":
+        f, kh, kw = int(rng.integers(1, 5)), int(rng.integers(1, 4)), int(rng.integers(1, 4))
+        pad = pick(rng, ["valid", "same"])
+        mask = (rng.integers(0, 2, size=(kh, kw))).astype(np.float32)
+        desc.update(filters=f, kh=kh, kw=kw, pad=pad, mask=mask.tolist())
+        ql = qkeras.QConv2D(f, (kh, kw), padding=pad, use_bias=use_bias, kernel_quantizer=kq, bias_quantizer=bq, activation=aq, mask=mask)
+        ref = L.Conv2D(f, (kh, kw), padding=pad, use_bias=use_bias)
+        x = rng.normal(0, 1, size=(2, 7, 8, int(rng.integers(1, 4)))).astype(np.float32)
+        wq = ["kernel_quantizer_internal", "bias_quantizer_internal"]
       elif kind == "depthwise":
         kh, kw, s, dm = int(rng.integers(1, 4)), int(rng.integers(1, 4)), int(rng.integers(1, 3)), int(rng.integers(1, 3))
         pad = pick(rng, ["valid", "same"])
@@ -97,14 +116,14 @@ def main():
         ref = L.DepthwiseConv2D((kh, kw), strides=s, padding=pad, depth_multiplier=dm, dilation_rate=d, use_bias=use_bias)
         x = rng.normal(0, 1, size=(2, 8, 8, int(rng.integers(1, 4)))).astype(np.float32)
         wq = ["depthwise_quantizer_internal", "bias_quantizer_internal"]
-      elif kind in ("sep2d", "sep1d"):
+      elif kind in ("sep2d", "sep1d", "sep2d_noq", "sep1d_noq"):
         causal_pad = 0
         f, k, dm = int(rng.integers(1, 6)), int(rng.integers(1, 4)), int(rng.integers(1, 3))
-        pq = pick(rng, QS)
+        pq = pick(rng, QS) if not kind.endswith("_noq") else None
         ss = int(rng.integers(1, 3))
         sd = 1 if ss > 1 else int(rng.integers(1, 3))
         desc.update(filters=f, k=k, dm=dm, pq=pq, s=ss, d=sd)
-        if kind == "sep2d":
+        if kind.startswith("sep2d"):
           pad = pick(rng, ["valid", "same"])
           ql = qkeras.QSeparableConv2D(f, (k, k), strides=ss, dilation_rate=sd, padding=pad, depth_multiplier=dm, use_bias=use_bias, depthwise_quantizer=kq,
                                        pointwise_quantizer=pq, bias_quantizer=bq, activation=aq)
@@ -163,7 +182,7 @@ def main():
       xt = tf.constant(x)
       y0 = ql(xt)        # builds
       xref = xt
-      if kind == "sep1d" and causal_pad:
+      if kind.startswith("sep1d") and causal_pad:
         xref = tf.pad(xt, [[0, 0], [causal_pad, 0], [0, 0]])
       ref(xref)
       ws = [rng.normal(0, 0.7, size=w.shape).astype(np.float32) for w in ql.get_weights()]
@@ -174,6 +193,8 @@ def main():
       qws = []
       for w, qq in zip(ws, rq[:len(ws)]):
         qws.append(qq(tf.constant(w)).numpy() if qq is not None else w)
+      if kind == "conv2d_mask":
+        qws[0] = qws[0] * mask[:, :, None, None]       # the mask removes kernel positions after quantization
       ref.set_weights(qws)
       want = ref(xref)
       if aq:
@@ -264,10 +285,7 @@ def main():
       else:
         n_cell_ok += 1
     except Exception as e:  # pylint: disable=broad-except
-      if kind == "gru" and reset_after and "unstack" in str(e):
-        rep.finding("C11-gru-reset-after-needs-array-ops-unstack", f"QGRUCell(reset_after=True, use_bias=True).call raises {type(e).__name__}: {str(e)[:120]}", {"cell": desc})
-      else:
-        rep.violation(f"cell-raises-{kind}-{i}", f"{desc}: {type(e).__name__}: {str(e)[:300]}", {"cell": desc})
+      rep.violation(f"cell-raises-{kind}-{i}", f"{desc}: {type(e).__name__}: {str(e)[:300]}", {"cell": desc})
   rep.note(recurrent_cells=ncell, cells_equal_to_reference=n_cell_ok)
   # the recurrent WRAPPER layers cannot be built under the pinned Keras
   try:
